@@ -19,7 +19,8 @@ RULE = (
     "Finite domain enumerated without repetition: for each of the six "
     "descriptor classes, ordered pairs (t, t') of orderings of the position "
     "contents x all parity pairs (incl. None vs specified) x placeholder "
-    "patterns (none / one None / two None) x id renamings (small, negative "
+    "patterns (none / one None / two None / for the bond classes one real "
+    "atom in two positions) x id renamings (small, negative "
     "shuffled, large, ids with coinciding Python hashes). 5-position classes: all 120x120 pairs; 6-position: "
     "identity row x 720 plus sampled rows (all 720 rows in thorough); "
     "Octahedral: identity x 5040 plus sampled rows. Each pair checks eq vs "
@@ -57,6 +58,11 @@ def _contents(n, pattern, ren):
     """Position contents: n ids, with the last 0/1/2 ligand slots None."""
     f = RENAMINGS[ren]
     base = [f(i) for i in range(n)]
+    if pattern == "repeat":
+        # one real atom in two positions (a ligand shared by both ends of a
+        # double bond in a three-membered ring)
+        base[4] = base[0]
+        return tuple(base)
     k = {"none": 0, "one": 1, "two": 2}[pattern]
     for j in range(k):
         base[n - 1 - j] = None
@@ -71,7 +77,8 @@ def check_pair(cls, t, p, t2, p2, D=None):
     """All pair-level assertions.  Returns nothing, raises Violation."""
     C = _cls(cls)
     pat = ("2None" if t.count(None) >= 2 else
-           "1None" if t.count(None) == 1 else "distinct")
+           "1None" if t.count(None) == 1 else
+           "repeated-atom" if len(set(t)) < len(t) else "distinct")
     if D is None:
         with guard(f"C04/{cls}/construct"):
             d1, d2 = C(t, p), C(t2, p2)
@@ -202,7 +209,9 @@ def run(ctx):
         if len(rows) < len(idx_perms):
             total_rows_all = False
         pars = _parities(cls) + (None,)
-        for pattern in ("none", "one", "two"):
+        for pattern in ("none", "one", "two", "repeat"):
+            if pattern == "repeat" and cls not in ("PlanarBond", "AtropBond"):
+                continue
             rens = (("small", "negshuf", "large", "hashcollide")
                     if pattern == "none" else ("negshuf", "hashcollide"))
             if ctx.quick and n >= 6 and pattern != "none":
